@@ -286,18 +286,21 @@ CK_RV P11Attribute::retrieve(Token *token, bool isPrivate, CK_VOID_PTR pValue, C
 			else
 				attrSize = attr.getByteStringValue().size();
 		}
-		else if (attr.isMechanismTypeSetAttribute())
+		// The value of a mechanism set or an attribute map is delivered as an
+		// array of mechanism types or of CK_ATTRIBUTE. An object file can be
+		// corrupt: only the attributes that have this kind may be stored so,
+		// otherwise the byte buffer of the caller is taken for such an array.
+		else if (attr.isMechanismTypeSetAttribute() && type == CKA_ALLOWED_MECHANISMS)
 		{
 			attrSize = attr.getMechanismTypeSetValue().size() * sizeof(CK_MECHANISM_TYPE);
 		}
-		else if (attr.isAttributeMapAttribute())
+		else if (attr.isAttributeMapAttribute() && (type == CKA_WRAP_TEMPLATE || type == CKA_UNWRAP_TEMPLATE))
 		{
 			attrSize = attr.getAttributeMapValue().size() * sizeof(CK_ATTRIBUTE);
 		}
 		else
 		{
-			// Should be impossible.
-			ERROR_MSG("Internal error: attribute has fixed size");
+			ERROR_MSG("Internal error: the stored attribute does not have the kind of the attribute");
 			return CKR_GENERAL_ERROR;
 		}
 	}
